@@ -1,0 +1,178 @@
+//! Verification facade (cargo feature `verif`, off by default).
+//!
+//! Thin public wrappers around crate-private entry points so that an external
+//! harness can drive a `Chitchat` instance one protocol step at a time.
+//! Nothing in this module is compiled unless the `verif` feature is enabled and
+//! no existing item is modified by it.
+
+use std::collections::HashSet;
+use std::fmt::Write as _;
+use std::net::SocketAddr;
+
+use rand::Rng;
+
+use crate::digest::Digest;
+use crate::serialize::{Deserializable, Serializable};
+use crate::{Chitchat, ChitchatId, ChitchatMessage};
+
+fn hex(bytes: &[u8]) -> String {
+    let mut out = String::with_capacity(bytes.len() * 2 + 1);
+    if bytes.is_empty() {
+        out.push('-');
+    }
+    for byte in bytes {
+        let _ = write!(out, "{byte:02x}");
+    }
+    out
+}
+
+fn dump_id(out: &mut String, chitchat_id: &ChitchatId) {
+    let _ = write!(
+        out,
+        "{}/{}/{}",
+        hex(chitchat_id.node_id.as_bytes()),
+        chitchat_id.generation_id,
+        chitchat_id.gossip_advertise_addr
+    );
+}
+
+fn dump_digest(out: &mut String, digest: &Digest) {
+    let _ = write!(out, "digest {}", digest.node_digests.len());
+    for (chitchat_id, node_digest) in &digest.node_digests {
+        out.push_str(" [");
+        dump_id(out, chitchat_id);
+        let _ = write!(
+            out,
+            " {} {} {}]",
+            node_digest.heartbeat.0, node_digest.last_gc_version, node_digest.max_version
+        );
+    }
+}
+
+fn dump_delta(out: &mut String, delta: &crate::delta::Delta) {
+    let _ = write!(
+        out,
+        "delta len={} n={}",
+        delta.serialized_len(),
+        delta.node_deltas.len()
+    );
+    for node_delta in &delta.node_deltas {
+        out.push_str(" {");
+        dump_id(out, &node_delta.chitchat_id);
+        let _ = write!(
+            out,
+            " gc={} from={} max={} kvs={}",
+            node_delta.last_gc_version,
+            node_delta.from_version_excluded,
+            node_delta.max_version,
+            node_delta.key_values.len()
+        );
+        for kv in &node_delta.key_values {
+            let _ = write!(
+                out,
+                " ({} {} {} {})",
+                hex(kv.key.as_bytes()),
+                hex(kv.value.as_bytes()),
+                kv.version,
+                kv.status as u8
+            );
+        }
+        out.push('}');
+    }
+}
+
+/// Structural, canonical, single-line text rendering of a message.
+pub fn verif_dump_message(msg: &ChitchatMessage) -> String {
+    let mut out = String::new();
+    match msg {
+        ChitchatMessage::Syn { cluster_id, digest } => {
+            let _ = write!(out, "SYN cluster={} ", hex(cluster_id.as_bytes()));
+            dump_digest(&mut out, digest);
+        }
+        ChitchatMessage::SynAck { digest, delta } => {
+            out.push_str("SYNACK ");
+            dump_digest(&mut out, digest);
+            out.push(' ');
+            dump_delta(&mut out, delta);
+        }
+        ChitchatMessage::Ack { delta } => {
+            out.push_str("ACK ");
+            dump_delta(&mut out, delta);
+        }
+        ChitchatMessage::BadCluster => out.push_str("BADCLUSTER"),
+        #[cfg(test)]
+        ChitchatMessage::PanicForTest => out.push_str("PANIC"),
+    }
+    out
+}
+
+impl Chitchat {
+    pub fn verif_create_syn_message(&self) -> ChitchatMessage {
+        self.create_syn_message()
+    }
+
+    pub fn verif_process_message(&mut self, msg: ChitchatMessage) -> Option<ChitchatMessage> {
+        self.process_message(msg)
+    }
+
+    pub fn verif_update_nodes_liveness(&mut self) {
+        self.update_nodes_liveness()
+    }
+
+    pub fn verif_gc_keys_marked_for_deletion(&mut self) {
+        self.gc_keys_marked_for_deletion()
+    }
+
+    pub fn verif_update_self_heartbeat(&mut self) {
+        self.update_self_heartbeat()
+    }
+
+    /// Computes the delta this node would send in reply to `digest_bytes` (a serialized
+    /// digest) under the size budget `mtu`, skipping the members in `scheduled_for_deletion`,
+    /// and returns it as a message (`Ack`), so that it can be dumped or serialized.
+    pub fn verif_compute_delta(
+        &self,
+        digest_bytes: &[u8],
+        mtu: usize,
+        scheduled_for_deletion: &[ChitchatId],
+    ) -> anyhow::Result<ChitchatMessage> {
+        let mut buf = digest_bytes;
+        let digest = Digest::deserialize(&mut buf)?;
+        let scheduled_for_deletion: HashSet<&ChitchatId> = scheduled_for_deletion.iter().collect();
+        let delta = self.cluster_state().compute_partial_delta_respecting_mtu(
+            &digest,
+            mtu,
+            &scheduled_for_deletion,
+        );
+        Ok(ChitchatMessage::Ack { delta })
+    }
+
+    /// Serialized form of the digest this node would currently advertise.
+    pub fn verif_self_digest_bytes(&self) -> Vec<u8> {
+        let scheduled_for_deletion: HashSet<_> = self.scheduled_for_deletion_nodes().collect();
+        self.cluster_state()
+            .compute_digest(&scheduled_for_deletion)
+            .serialize_to_vec()
+    }
+
+    /// Heartbeat remembered for a member that was removed (garbage collected), if any.
+    pub fn verif_last_heartbeat_if_deleted(&self, chitchat_id: &ChitchatId) -> Option<u64> {
+        self.cluster_state()
+            .last_heartbeat_if_deleted(chitchat_id)
+            .map(|heartbeat| heartbeat.0)
+    }
+}
+
+/// Re-export of the (private) peer selection function of the gossip server.
+pub fn verif_select_nodes_for_gossip<R>(
+    rng: &mut R,
+    peer_nodes: HashSet<SocketAddr>,
+    live_nodes: HashSet<SocketAddr>,
+    dead_nodes: HashSet<SocketAddr>,
+    seed_nodes: HashSet<SocketAddr>,
+) -> (Vec<SocketAddr>, Option<SocketAddr>, Option<SocketAddr>)
+where
+    R: Rng + ?Sized,
+{
+    crate::server::verif_select_nodes_for_gossip(rng, peer_nodes, live_nodes, dead_nodes, seed_nodes)
+}
